@@ -324,7 +324,7 @@ def observe(r, rep):
             rep.count("bad." + w[1])
 
 
-LEVEL_TEXT = ("Machine-checked Lean 4 theorems (59, axioms propext/Classical.choice/Quot.sound at most) over an executable model "
+LEVEL_TEXT = ("Machine-checked Lean 4 theorems (58, axioms propext/Classical.choice/Quot.sound at most) over an executable model "
               "of CommandLineArguments::parse and of the runner that applies the configuration. Proved for ALL inputs of the "
               "stated kind, no bound: parse_render (every list of documented options, any order and multiplicity, attached or "
               "separated form, arbitrary identifier-like values, counts 1..2^31-1, seeds 1..2^32-1: accepted, configuration = the "
@@ -338,8 +338,8 @@ LEVEL_TEXT = ("Machine-checked Lean 4 theorems (59, axioms propext/Classical.cho
               "chain for -p<x> (asked head first until the first accepts; default plugins refuse; only MemoryReporterPlugin "
               "overrides, regenerated), the RunAllTests(ac, av) glue (leak and pointer plugins installed and removed around every "
               "outcome, -h returns 1 without running, return value), every value option as last argument or followed by an empty "
-              "argument, and that help()/usage() mention exactly the options (usage: all; help: all but -ri, kept visible as a "
-              "false full statement with its witness) and every mentioned option is dispatched. The if/else-if chain of "
+              "argument, and that help() and usage() each mention exactly the options of the Opt datatype (plus -h) and every "
+              "mentioned option is dispatched, every dispatched branch mentioned. The if/else-if chain of "
               "parse() and the eight add...Filter functions are regenerated from the source on every run and proved equal to the "
               "model's tables (decide); the other helpers are pinned by normalised text. The model is tied to the code by a "
               "differential harness running the real parser and CommandLineTestRunner under ASan/UBSan on rendered, documented-"
